@@ -10,6 +10,10 @@ Extracted (fail closed on every other shape):
                                `.set(...)` calls made on the copy, is the copy what is returned / stored
   * Observation._run_single_pipeline, observation_dask._run_pipelines_array_to_datatree, ModelFittingDataTree.fitness /
     _apply_parameters : the `processor=` handed to run_pipeline is the name bound to the copier's result
+  * for the same five copy sites: does the function WRITE to anything derived from the processor it is given
+    (attribute / item stores, del, setattr, mutating method calls rooted at the parameter or at a local bound from it,
+    deepcopy(...) results excepted) -> Pure / Touches; and is every value handed to `.set` a deepcopy(...) (or taken
+    from a name bound to one) -> src_value_copy
   * no class under pyxel/{pipelines,detectors,data_structure,exposure,observation} other than Processor / ModelGroup
     defines __deepcopy__/__copy__/__reduce__/__reduce_ex__/__getstate__/__setstate__
 """
@@ -22,6 +26,8 @@ from harness.core import TranslationError
 
 from .common import HEADER, body_no_doc, fail, find_func, parse
 
+COPY_SITES = ("create_new_processor", "Processor.replace", "update_processor", "build_processors",
+              "ModelFittingDataTree.__init__")
 IMMUTABLE_ANN = {"str", "int", "float", "bool"}
 HOOKS = {"__deepcopy__", "__copy__", "__reduce__", "__reduce_ex__", "__getstate__", "__setstate__"}
 ALLOWED_HOOKS = {("Processor", "__deepcopy__"), ("ModelGroup", "__deepcopy__"), ("ModelGroup", "__getstate__"),
@@ -156,6 +162,176 @@ def copy_site(fn: ast.FunctionDef, src_name: str, what: str) -> str:
     return mode
 
 
+# ------------------------------------------------------------------ does a copy site write to the caller's objects?
+
+MUTATORS = {"append", "extend", "insert", "pop", "remove", "clear", "update", "setdefault", "sort", "reverse",
+            "popitem", "add", "discard", "fill", "resize", "put", "itemset", "empty", "reset", "set", "set_readout",
+            "run_pipeline", "run", "__setattr__", "__setitem__", "__delattr__", "__delitem__", "__iadd__", "pop_all",
+            "add_charge", "add_charge_array", "add_charge_dataframe", "setflags", "sort_values", "drop", "load"}
+READERS = {"get", "has", "items", "keys", "values", "copy", "replace", "__deepcopy__", "index", "count", "to_dict",
+           "to_xarray", "model_group_names", "startswith", "endswith", "split", "format", "join", "tolist", "item",
+           "to_numpy", "squeeze", "groupby", "sel", "isel", "astype", "__len__", "__iter__", "__getitem__",
+           "__contains__", "__repr__", "__str__", "__eq__", "__hash__", "get_bounds", "enabled_steps"}
+PURE_CALLS = {"len", "isinstance", "type", "id", "repr", "str", "print", "hasattr", "getattr", "list", "tuple", "zip",
+              "enumerate", "sorted", "iter", "next", "bool", "range", "min", "max", "sum", "any", "all", "dict", "set",
+              "float", "int", "reversed", "vars", "dir", "callable", "issubclass", "delayed", "dask.delayed"}
+COPIERS = {"deepcopy", "copy.deepcopy", "build_processors", "create_new_processor"}
+DEEPCOPY = {"deepcopy", "copy.deepcopy"}
+
+
+COPIER_METHODS = {"replace", "update_processor", "__deepcopy__"}
+
+
+def _is_copier_call(expr) -> bool:
+    """A call whose result is a fresh copy: create_new_processor(...), build_processors(...), x.replace(...),
+    self.update_processor(...).  (Each of these is itself a checked copy site.)"""
+    if not isinstance(expr, ast.Call):
+        return False
+    fname = ast.unparse(expr.func)
+    if fname in COPIERS or fname.split(".")[-1] in (COPIERS - DEEPCOPY):
+        return True
+    return isinstance(expr.func, ast.Attribute) and expr.func.attr in COPIER_METHODS
+
+
+def _root(node):
+    while isinstance(node, (ast.Attribute, ast.Subscript, ast.Starred)):
+        node = node.value
+    return node.id if isinstance(node, ast.Name) else None
+
+
+def _mentions(expr, names) -> bool:
+    """Does expr mention one of `names` outside a deepcopy(...) call?"""
+    if _is_call_to(expr, DEEPCOPY) or _is_copier_call(expr):
+        return False
+    if isinstance(expr, ast.Name):
+        return expr.id in names
+    return any(_mentions(c, names) for c in ast.iter_child_nodes(expr))
+
+
+def _target_names(t):
+    if isinstance(t, ast.Name):
+        return [t.id]
+    if isinstance(t, (ast.Tuple, ast.List)):
+        return [n for e in t.elts for n in _target_names(e)]
+    if isinstance(t, ast.Starred):
+        return _target_names(t.value)
+    return []
+
+
+def _bindings(fn):
+    """(target names, value expression) of every name-binding construct of the function."""
+    for st in ast.walk(fn):
+        if isinstance(st, ast.Assign):
+            for t in st.targets:
+                yield _target_names(t), st.value
+        elif isinstance(st, ast.AnnAssign) and st.value is not None:
+            yield _target_names(st.target), st.value
+        elif isinstance(st, ast.AugAssign):
+            yield _target_names(st.target), st.value
+        elif isinstance(st, (ast.For, ast.AsyncFor)):
+            yield _target_names(st.target), st.iter
+        elif isinstance(st, ast.comprehension):
+            yield _target_names(st.target), st.iter
+        elif isinstance(st, ast.NamedExpr):
+            yield _target_names(st.target), st.value
+        elif isinstance(st, (ast.With, ast.AsyncWith)):
+            for it in st.items:
+                if it.optional_vars is not None:
+                    yield _target_names(it.optional_vars), it.context_expr
+
+
+def tainted_names(fn, src_name: str) -> set:
+    t = {src_name}
+    changed = True
+    while changed:
+        changed = False
+        for names, val in _bindings(fn):
+            if names and _mentions(val, t):
+                for n in names:
+                    if n not in t:
+                        t.add(n)
+                        changed = True
+    return t
+
+
+def site_effect(fn: ast.FunctionDef, src_name: str, what: str) -> str:
+    """'Pure' iff nothing derived from the processor the site is given is written to.  (`.set` on the parameter itself is
+    reported by copy_site as Alias.)  Fails closed on a call it cannot classify."""
+    t = tainted_names(fn, src_name)
+    for node in ast.walk(fn):
+        targets = []
+        if isinstance(node, ast.Assign):
+            targets = node.targets
+        elif isinstance(node, (ast.AugAssign, ast.AnnAssign)):
+            targets = [node.target]
+        elif isinstance(node, ast.Delete):
+            targets = node.targets
+        elif isinstance(node, (ast.For, ast.AsyncFor)):
+            targets = [node.target]
+        for tg in targets:
+            for sub in ([tg] if not isinstance(tg, (ast.Tuple, ast.List)) else tg.elts):
+                if isinstance(sub, (ast.Attribute, ast.Subscript)) and _root(sub) in t:
+                    return "Touches"
+        if isinstance(node, ast.Call):
+            fname = ast.unparse(node.func)
+            args = list(node.args) + [k.value for k in node.keywords]
+            if fname in ("setattr", "delattr", "object.__setattr__") and args and _root(args[0]) in t:
+                return "Touches"
+            if isinstance(node.func, ast.Attribute) and _root(node.func.value) in t \
+                    and not _is_call_to(node.func.value, DEEPCOPY):
+                m = node.func.attr
+                if _root(node.func.value) == src_name and m == "set":
+                    continue                      # copy_site's business
+                if m in MUTATORS:
+                    return "Touches"
+                if m not in READERS:
+                    fail(node, f"{what}: method call on an object derived from `{src_name}` that is neither a known "
+                               f"reader nor a known mutator")
+            elif any(_mentions(a, t) for a in args):
+                short = fname.split(".")[-1]
+                if short in ("run_pipeline", "run_exposure_pipeline", "run"):
+                    return "Touches"                # the caller's own processor is run (a run works in place)
+                if fname in COPIERS or short in COPIERS or fname in PURE_CALLS or fname.startswith("logging.") \
+                        or fname.startswith("log.") or fname.startswith("logger.") or fname.startswith("self._log."):
+                    continue
+                if isinstance(node.func, ast.Attribute) and node.func.attr in ("append", "extend", "add", "insert"):
+                    continue                      # storing a reference in a local / result container writes nothing
+                if isinstance(node.func, ast.Attribute) and node.func.attr == "set":
+                    continue                      # <copy>.set(..., value=<derived>): the VALUE question is src_value_copy
+                fail(node, f"{what}: an object derived from `{src_name}` is passed to a call that is not known to be pure")
+    return "Pure"
+
+
+def value_copied(fn: ast.FunctionDef, what: str) -> bool:
+    """True iff every `.set(key, value)` of the site hands over a value that the site deep-copied itself."""
+    fresh = set()
+    for names, val in _bindings(fn):
+        if _is_call_to(val, DEEPCOPY) and len(names) == 1:
+            fresh.add(names[0])
+    ndarray_params = {a.arg for a in fn.args.args + fn.args.kwonlyargs
+                      if a.annotation is not None and ast.unparse(a.annotation) in ("np.ndarray", "numpy.ndarray")}
+    ok = True
+    for node in ast.walk(fn):
+        if isinstance(node, ast.Call) and isinstance(node.func, ast.Attribute) and node.func.attr == "set":
+            kws = {k.arg: k.value for k in node.keywords}
+            v = kws.get("value", node.args[1] if len(node.args) > 1 else None)
+            if v is None:
+                fail(node, f"{what}: .set without a value")
+            if _is_call_to(v, DEEPCOPY) or _is_call_to(v, {"np.array", "numpy.array", "np.copy", "numpy.copy"}):
+                continue
+            if isinstance(v, ast.Call) and isinstance(v.func, ast.Attribute) and v.func.attr == "copy" \
+                    and not v.args and isinstance(v.func.value, ast.Subscript) \
+                    and isinstance(v.func.value.slice, ast.Slice):
+                continue                      # <ndarray>[a:b].copy(): a new 1-D array of numbers
+            if isinstance(v, (ast.Subscript, ast.Attribute, ast.Name)) and _root(v) in fresh:
+                continue
+            if isinstance(v, ast.Subscript) and isinstance(v.value, ast.Name) and v.value.id in ndarray_params \
+                    and isinstance(v.slice, (ast.Name, ast.Constant)):
+                continue                      # one element of a 1-D numpy array: an immutable numpy scalar
+            ok = False
+    return ok
+
+
 def use_site(fn: ast.FunctionDef, copier: str, what: str) -> str:
     """Deep iff every run_pipeline(processor=X) gets a name X bound from a call to `copier`."""
     bound = set()
@@ -230,17 +406,32 @@ def extract(repo: Path) -> dict:
         ("ModelFittingDataTree._apply_parameters", use_site(find_func(fit, "_apply_parameters", "ModelFittingDataTree"),
                                                             "update_processor", "_apply_parameters")),
     ]
-    return dict(proc_fields=pf, group_fields=gf, sites=sites)
+    copy_fns = [
+        ("create_new_processor", find_func(misc, "create_new_processor"), "processor"),
+        ("Processor.replace", find_func(proc, "replace", "Processor"), "self"),
+        ("update_processor", find_func(fit, "update_processor", "ModelFittingDataTree"), "processor"),
+        ("build_processors", find_func(fit, "build_processors"), "processor"),
+        ("ModelFittingDataTree.__init__", find_func(fit, "__init__", "ModelFittingDataTree"), "processor"),
+    ]
+    effects = [(name, site_effect(fn, src, name)) for name, fn, src in copy_fns + [
+        ("Observation._run_single_pipeline", find_func(obs, "_run_single_pipeline", "Observation"), "processor"),
+        ("dask._run_pipelines_array_to_datatree", find_func(dsk, "_run_pipelines_array_to_datatree"), "processor"),
+    ]]
+    vcopy = [(name, value_copied(fn, name)) for name, fn, src in copy_fns]
+    return dict(proc_fields=pf, group_fields=gf, sites=sites, effects=effects, value_copy=vcopy)
 
 
 def render(d: dict) -> str:
     def tbl(rows):
         return "[" + "; ".join(f'("{n}", {m})' for n, m in rows) + "]"
     return (HEADER +
-            "From Coq Require Import String List.\nFrom PyxelV Require Import Model.Heap.\n"
+            "From Coq Require Import String List.\nFrom PyxelV Require Import Model.Heap Model.HeapExc.\n"
             "Import ListNotations.\nOpen Scope string_scope.\n"
             f"Definition src_policy : policy := mkPolicy {tbl(d['proc_fields'])} {tbl(d['group_fields'])}.\n"
-            f"Definition src_sites : list (string * cmode) := {tbl(d['sites'])}.\n")
+            f"Definition src_sites : list (string * cmode) := {tbl(d['sites'])}.\n"
+            f"Definition src_site_effects : list (string * effect) := {tbl(d['effects'])}.\n"
+            "Definition src_value_copy : list (string * bool) := "
+            f"{tbl([(n, 'true' if b else 'false') for n, b in d['value_copy']])}.\n")
 
 
 def translate(repo: Path) -> str:
@@ -255,5 +446,9 @@ FALLBACK_DATA = dict(
         "ModelFittingDataTree.__init__", "Observation._run_single_pipeline",
         "dask._run_pipelines_array_to_datatree", "ModelFittingDataTree.fitness",
         "ModelFittingDataTree._apply_parameters")],
+    effects=[(s, "Pure") for s in COPY_SITES + ("Observation._run_single_pipeline",
+                                                "dask._run_pipelines_array_to_datatree")],
+    value_copy=[(s, s in ("create_new_processor", "update_processor", "ModelFittingDataTree.__init__"))
+                for s in COPY_SITES],
 )
 FALLBACK = render(FALLBACK_DATA)
